@@ -249,6 +249,37 @@ class NPProxy:
         return getattr(np, name)
 
     @staticmethod
+    def isscalar(x):
+        return isinstance(x, Sym) or np.isscalar(x)
+
+    @staticmethod
+    def _numeric(x):
+        """numeric (complex) array of an object array of plain numbers / constant nodes; None when symbolic"""
+        arr = np.asarray(x, dtype=object)
+        out = np.empty(arr.shape, dtype=complex)
+        for idx in np.ndindex(arr.shape):
+            e = arr[idx]
+            if isinstance(e, Sym):
+                e = simp(e)
+                if not is_const(e):
+                    return None
+                e = e.args[0]
+            out[idx] = complex(e)
+        return out
+
+    def angle(self, x, deg=False):
+        v = self._numeric(x)
+        if v is None:
+            raise TypeError("angle of a symbolic array")
+        return np.angle(v, deg=deg)
+
+    def max(self, x, *a, **kw):
+        v = self._numeric(x)
+        if v is None or np.any(v.imag != 0):
+            return np.max(x, *a, **kw)
+        return np.max(v.real, *a, **kw)
+
+    @staticmethod
     def _obj(shape):
         a = np.empty(shape, dtype=object)
         a[...] = Sym("const", 0j)
